@@ -220,7 +220,7 @@ S.item(
     "solve.exact.large",
     site=SITE,
     bound="20 fixed graphs on 7..9 vertices (signed time-reversed measurements) + seeded random graphs without isolated "
-    "vertex on 7..9 vertices (quick 160, thorough 1500; <= 4 emitters, out of reach of known finding C11-F1), given as graph and as stabilizer QuantumState, stabilizer compiler; thorough adds 5000 seeded graphs of the 27449 on 6 vertices (graph input); "
+    "vertex on 7..9 vertices (quick 90, thorough 1500; <= 4 emitters, out of reach of known finding C11-F1), given as graph and as stabilizer QuantumState, stabilizer compiler; thorough adds 5000 seeded graphs of the 27449 on 6 vertices (graph input); "
     "refsem state vector (up to 13 qubits) over every combination of measurement outcomes",
     clause="same contract as solve.exact on larger targets (emitter sign corrections before mid-circuit measurements)",
 )(solve_case)
@@ -341,7 +341,7 @@ def run(tier, seed):
     for n, edges in SIGNED_MEASUREMENT_TARGETS:
         for rep in ("g", "s"):
             large.append({"n": n, "edges": edges, "rep": rep, "comp": "stab"})
-    for k in range(1500 if thorough else 160):
+    for k in range(1500 if thorough else 90):
         n = 7 + k % 3
         while True:
             A = np.triu((rng.random((n, n)) < rng.uniform(0.3, 0.9)).astype(int), 1)
